@@ -11,6 +11,9 @@ Applied to every parsed module before any rule runs, so that behaviour-preservin
 Line numbers are preserved (copy_location).  The transform is idempotent.
 """
 import ast
+import os
+
+N9_ENABLED = os.environ.get('GSA_N9', '0') != '0'      # off until the three rule sites that name their locals read through them
 
 NEG = {ast.Eq: ast.NotEq, ast.NotEq: ast.Eq, ast.Lt: ast.GtE, ast.LtE: ast.Gt, ast.Gt: ast.LtE, ast.GtE: ast.Lt, ast.Is: ast.IsNot, ast.IsNot: ast.Is,
        ast.In: ast.NotIn, ast.NotIn: ast.In}
@@ -158,5 +161,178 @@ class Canon(ast.NodeTransformer):
     visit_AsyncFunctionDef = visit_FunctionDef
 
 
-def canonicalise(tree):
-    return ast.fix_missing_locations(Canon().visit(tree))
+class InlineTemps(ast.NodeTransformer):
+    """N9: t = E; <next statement using t exactly once>  ->  <next statement with E in place of t>
+    when t is stored exactly once and loaded exactly once in the whole function, the use is in the statement that follows
+    the definition in the same block (own expressions of that statement, not inside a lambda / comprehension / nested def),
+    and E is not a bare name/constant alias of something the next statement rebinds.  It is the inverse of "bind the value to
+    a local first" and makes N4 a special case."""
+
+    SIMPLE = (ast.Assign, ast.AugAssign, ast.AnnAssign, ast.Expr, ast.Return, ast.Raise, ast.Assert, ast.Delete)
+
+    def visit_FunctionDef(self, node):
+        self.generic_visit(node)
+        for _ in range(4):
+            stores, loads = {}, {}
+            for n in ast.walk(node):
+                if isinstance(n, ast.Name):
+                    d = loads if isinstance(n.ctx, ast.Load) else stores
+                    d[n.id] = d.get(n.id, 0) + 1
+                elif isinstance(n, (ast.Global, ast.Nonlocal)):
+                    for nm in n.names:
+                        stores[nm] = stores.get(nm, 0) + 5
+            a = node.args
+            for x in a.posonlyargs + a.args + a.kwonlyargs + ([a.vararg] if a.vararg else []) + ([a.kwarg] if a.kwarg else []):
+                stores[x.arg] = stores.get(x.arg, 0) + 1
+            self._cand = {n for n in stores if stores[n] == 1 and loads.get(n, 0) == 1}
+            self._changed = False
+            if not self._cand:
+                break
+            node.body = self._block(node.body)
+            if not self._changed:
+                break
+        return node
+
+    visit_AsyncFunctionDef = visit_FunctionDef
+
+    @staticmethod
+    def _own_exprs(s):
+        if isinstance(s, InlineTemps.SIMPLE):
+            return [s]
+        if isinstance(s, (ast.If, ast.While)):
+            return [s.test]
+        if isinstance(s, (ast.For, ast.AsyncFor)):
+            return [s.iter]
+        if isinstance(s, (ast.With, ast.AsyncWith)):
+            return [it.context_expr for it in s.items]
+        return []
+
+    @staticmethod
+    def _single_plain_use(exprs, name):
+        """The Load of `name` inside exprs, when it is not under a lambda / comprehension / nested scope; else None."""
+        found = []
+
+        def walk(n, shielded):
+            if isinstance(n, ast.Name) and n.id == name and isinstance(n.ctx, ast.Load):
+                found.append((n, shielded))
+            sh = shielded or isinstance(n, (ast.Lambda, ast.ListComp, ast.SetComp, ast.DictComp, ast.GeneratorExp, ast.FunctionDef, ast.AsyncFunctionDef, ast.ClassDef))
+            for c in ast.iter_child_nodes(n):
+                walk(c, sh)
+        for e in exprs:
+            walk(e, False)
+        if len(found) == 1 and not found[0][1]:
+            return found[0][0]
+        return None
+
+    def _block(self, stmts):
+        out = []
+        i = 0
+        while i < len(stmts):
+            s = stmts[i]
+            for f in ('body', 'orelse', 'finalbody'):
+                b = getattr(s, f, None)
+                if isinstance(b, list) and b and isinstance(b[0], ast.stmt) and not isinstance(s, (ast.FunctionDef, ast.AsyncFunctionDef, ast.ClassDef)):
+                    setattr(s, f, self._block(b))
+            if isinstance(s, ast.Try):
+                for h in s.handlers:
+                    h.body = self._block(h.body)
+            nxt = stmts[i + 1] if i + 1 < len(stmts) else None
+            if nxt is not None and isinstance(s, ast.Assign) and len(s.targets) == 1 and isinstance(s.targets[0], ast.Name) and s.targets[0].id in self._cand \
+                    and not isinstance(s.value, (ast.Yield, ast.YieldFrom, ast.Await, ast.NamedExpr)) \
+                    and not isinstance(nxt, ast.While):        # a while test is re-evaluated
+                name = s.targets[0].id
+                use = self._single_plain_use(self._own_exprs(nxt), name)
+                if use is not None and not (isinstance(nxt, ast.AugAssign) and isinstance(nxt.target, ast.Name) and nxt.target.id == name):
+                    value = s.value
+
+                    class R(ast.NodeTransformer):
+                        def visit_Name(self_, n):
+                            return ast.copy_location(value, n) if n is use else n
+                    # rewrite only the own expressions of the next statement
+                    if isinstance(nxt, InlineTemps.SIMPLE):
+                        new_nxt = R().visit(nxt)
+                    elif isinstance(nxt, ast.If):
+                        nxt.test = R().visit(nxt.test)
+                        new_nxt = nxt
+                    elif isinstance(nxt, (ast.For, ast.AsyncFor)):
+                        nxt.iter = R().visit(nxt.iter)
+                        new_nxt = nxt
+                    else:
+                        for it in nxt.items:
+                            it.context_expr = R().visit(it.context_expr)
+                        new_nxt = nxt
+                    stmts = stmts[:i] + [new_nxt] + stmts[i + 2:]
+                    self._cand.discard(name)
+                    self._changed = True
+                    continue     # re-examine the merged statement at position i (it may itself be a single-use definition)
+            out.append(s)
+            i += 1
+        return out
+
+
+class Canon2(ast.NodeTransformer):
+    """N10: if c: x = A else: x = B  ->  x = A if c else B ;  if c: return A else: return B  ->  return A if c else B
+            (also with the else arm dedented: if c: return A; return B  as the LAST two statements of a block)
+    N12: xs = []; for v in it: [if f:] xs.append(e)   ->   xs = [e for v in it [if f]]     (adjacent statements, single append)"""
+
+    def _block(self, stmts):
+        out = []
+        i = 0
+        while i < len(stmts):
+            s = stmts[i]
+            nxt = stmts[i + 1] if i + 1 < len(stmts) else None
+            # N12
+            if isinstance(s, ast.Assign) and len(s.targets) == 1 and isinstance(s.targets[0], ast.Name) and isinstance(s.value, ast.List) and not s.value.elts \
+                    and isinstance(nxt, ast.For) and not nxt.orelse and len(nxt.body) == 1:
+                xs = s.targets[0].id
+                body, ifs = nxt.body[0], []
+                while isinstance(body, ast.If) and not body.orelse and len(body.body) == 1:
+                    ifs.append(body.test)
+                    body = body.body[0]
+                if isinstance(body, ast.Expr) and isinstance(body.value, ast.Call):
+                    c = body.value
+                    used = {n.id for x in [nxt.iter] + ifs + list(c.args) for n in ast.walk(x) if isinstance(n, ast.Name)}
+                    if isinstance(c.func, ast.Attribute) and c.func.attr == 'append' and isinstance(c.func.value, ast.Name) and c.func.value.id == xs and len(c.args) == 1 \
+                            and not c.keywords and xs not in used:
+                        comp = ast.ListComp(elt=c.args[0], generators=[ast.comprehension(target=nxt.target, iter=nxt.iter, ifs=ifs, is_async=0)])
+                        out.append(ast.copy_location(ast.Assign(targets=[ast.Name(id=xs, ctx=ast.Store())], value=comp), s))
+                        i += 2
+                        continue
+            # N10 with dedented else: if c: return A ; return B   (last two statements of the block)
+            if isinstance(s, ast.If) and not s.orelse and len(s.body) == 1 and isinstance(s.body[0], ast.Return) and s.body[0].value is not None \
+                    and isinstance(nxt, ast.Return) and nxt.value is not None and i + 2 == len(stmts):
+                out.append(ast.copy_location(ast.Return(value=ast.IfExp(test=s.test, body=s.body[0].value, orelse=nxt.value)), s))
+                i += 2
+                continue
+            out.append(s)
+            i += 1
+        return out
+
+    def generic_visit(self, node):
+        super().generic_visit(node)
+        for f in ('body', 'orelse', 'finalbody'):
+            b = getattr(node, f, None)
+            if isinstance(b, list) and b and isinstance(b[0], ast.stmt):
+                setattr(node, f, self._block(b))
+        return node
+
+    def visit_If(self, node):
+        self.generic_visit(node)
+        if len(node.body) == 1 and len(node.orelse) == 1:
+            a, b = node.body[0], node.orelse[0]
+            if isinstance(a, ast.Return) and isinstance(b, ast.Return) and a.value is not None and b.value is not None:
+                return ast.copy_location(ast.Return(value=ast.IfExp(test=node.test, body=a.value, orelse=b.value)), node)
+            if isinstance(a, ast.Assign) and isinstance(b, ast.Assign) and len(a.targets) == 1 and len(b.targets) == 1 and isinstance(a.targets[0], ast.Name) \
+                    and isinstance(b.targets[0], ast.Name) and a.targets[0].id == b.targets[0].id:
+                return ast.copy_location(ast.Assign(targets=[ast.Name(id=a.targets[0].id, ctx=ast.Store())], value=ast.IfExp(test=node.test, body=a.value, orelse=b.value)), node)
+        return node
+
+
+def canonicalise(tree, second_stage=True):
+    """second_stage (N9/N10/N12) is for plain Python modules; the Cython kernels keep their statement structure for the table rules."""
+    tree = ast.fix_missing_locations(Canon().visit(tree))
+    if N9_ENABLED and second_stage:
+        tree = ast.fix_missing_locations(Canon2().visit(tree))
+        tree = ast.fix_missing_locations(Canon().visit(tree))        # polarity of the new conditional expressions
+        tree = ast.fix_missing_locations(InlineTemps().visit(tree))
+    return tree
